@@ -1,6 +1,7 @@
 package harness
 
 import (
+	"reflect"
 	"bytes"
 	"encoding/binary"
 	"errors"
@@ -32,6 +33,8 @@ type memStream struct {
 	tripped     bool
 	out         bytes.Buffer
 	writes      int
+	wfailAfter  int // >0: the write that crosses this many accepted bytes is cut there and fails, once; later writes succeed
+	wtripped    bool
 }
 
 func (m *memStream) Read(p []byte) (int, error) {
@@ -63,7 +66,16 @@ func (m *memStream) Read(p []byte) (int, error) {
 	m.delivered += n
 	return n, nil
 }
-func (m *memStream) Write(p []byte) (int, error)        { m.writes++; return m.out.Write(p) }
+func (m *memStream) Write(p []byte) (int, error) {
+	m.writes++
+	if m.wfailAfter > 0 && !m.wtripped && m.out.Len()+len(p) > m.wfailAfter {
+		m.wtripped = true
+		n := m.wfailAfter - m.out.Len()
+		m.out.Write(p[:n])
+		return n, errStream
+	}
+	return m.out.Write(p)
+}
 func (m *memStream) SetWriteDeadline(time.Time) error   { return nil }
 func (m *memStream) SetReadDeadline(time.Time) error    { return nil }
 func (m *memStream) SetDeadline(time.Time) error        { return nil }
@@ -97,7 +109,22 @@ func (p *simplePool) Get() any {
 	}
 	return nil
 }
-func (p *simplePool) Put(x any) { p.items = append(p.items, x) }
+// Put: what is handed back belongs to the pool, which may do anything with it at once (a pool shared with other
+// connections, a pool that scrubs): this one overwrites every byte slice it is given.
+func (p *simplePool) Put(x any) {
+	if v := reflect.ValueOf(x); v.Kind() == reflect.Struct {
+		for i := 0; i < v.NumField(); i++ {
+			if f := v.Field(i); f.Kind() == reflect.Slice && f.Type().Elem().Kind() == reflect.Uint8 {
+				b := f.Bytes()
+				b = b[:cap(b)]
+				for k := range b {
+					b[k] = 0xAA
+				}
+			}
+		}
+	}
+	p.items = append(p.items, x)
+}
 
 // chunkReader hands out its chunks one Read at a time.
 // chunkReader hands out its chunks one Read at a time; with eofWithLast the final
@@ -540,6 +567,7 @@ func boundaryLens(rng interface{ IntN(int) int }, wbuf int, thorough bool) []int
 // bytes for correspondence with the Lean model; monitors C14 (wire = spec
 // encoding, one frame) and C13 (the peer reads back the same messages).
 func famWTWrite(t *testing.T, r *Rec) {
+	writeFaults(r)
 	wbufs := []int{0, 16, 1, 300}
 	if r.thorough() {
 		wbufs = append(wbufs, 4096, 70000, 127, 65527)
@@ -646,6 +674,80 @@ func famWTWrite(t *testing.T, r *Rec) {
 	}
 }
 
+// writeFaults (monitor only, no model): a stream write that fails after accepting part of a frame leaves a torn frame
+// on the wire; whatever the application does next on that connection, nothing more may be written (a decoder would
+// take the next frame's header for payload) and every write API has to report the failure.
+func writeFaults(r *Rec) {
+	type step struct {
+		name string
+		run  func(w *wconn, pm *webtransport.PreparedMessage) error
+	}
+	steps := []step{
+		{"WritePreparedMessage", func(w *wconn, pm *webtransport.PreparedMessage) error { return w.c.WritePreparedMessage(pm) }},
+		{"WriteMessage", func(w *wconn, pm *webtransport.PreparedMessage) error { return w.c.WriteMessage(webtransport.TextMessage, []byte("after")) }},
+		{"NextWriter+Close", func(w *wconn, pm *webtransport.PreparedMessage) error {
+			wr, err := w.c.NextWriter(webtransport.BinaryMessage)
+			if err != nil {
+				return err
+			}
+			wr.Write([]byte("after"))
+			return wr.Close()
+		}},
+	}
+	for _, server := range []bool{true, false} {
+		for _, n := range []int{3, 200, 70000} {
+			frame := specEncode("b", make([]byte, n), formMin)
+			for _, cut := range []int{1, 2, len(frame) / 2, len(frame) - 1} {
+				if cut <= 0 || cut >= len(frame) {
+					continue
+				}
+				for first := range steps {
+					w := newW(server, 0, false)
+					w.s.wfailAfter = cut
+					pm, _ := webtransport.NewPreparedMessage(webtransport.TextMessage, []byte("prepared"))
+					replay := []string{fmt.Sprintf("Go: conn(server=%v) over a stream whose write is cut after %d of %d bytes of the first frame; WriteMessage(binary, %d bytes); then %s first, then the other write APIs", server, cut, len(frame), n, steps[first].name)}
+					r.scenarios++
+					r.Cover(fmt.Sprintf("write-fault/server=%v/n=%d/then=%s", server, n, steps[first].name))
+					err0 := func() (err error) {
+						defer func() {
+							if p := recover(); p != nil {
+								err = fmt.Errorf("panic: %v", p)
+							}
+						}()
+						return w.c.WriteMessage(webtransport.BinaryMessage, make([]byte, n))
+					}()
+					if err0 == nil {
+						r.Violate("C14", "C14/write-fault/not-reported", "a failed stream write was not reported by WriteMessage", replay)
+						continue
+					}
+					torn := w.s.out.Len()
+					for k := 0; k < len(steps); k++ {
+						st := steps[(first+k)%len(steps)]
+						var err error
+						func() {
+							defer func() {
+								if p := recover(); p != nil {
+									err = fmt.Errorf("panic: %v", p)
+								}
+							}()
+							err = st.run(w, pm)
+						}()
+						if w.s.out.Len() != torn {
+							for _, pr := range []string{"C14", "C13"} {
+								r.Violate(pr, pr+"/write-fault/frame-after-torn-frame/"+st.name, fmt.Sprintf("%s wrote %d more bytes right behind a torn frame (the stream is no longer a sequence of frames)", st.name, w.s.out.Len()-torn), replay)
+							}
+							break
+						}
+						if err == nil {
+							r.Violate("C14", "C14/write-fault/later-write-succeeds/"+st.name, st.name+" reported success on a connection whose stream write had failed", replay)
+						}
+					}
+				}
+			}
+		}
+	}
+}
+
 // validStream builds a stream of spec frames with chosen length forms.
 func validStream(r *Rec, count int, maxLen int) (stream []byte, msgs []rmsg, bounds []int) {
 	for i := 0; i < count; i++ {
@@ -696,8 +798,21 @@ func famWTRead(t *testing.T, r *Rec) {
 		msgs   []rmsg // expected complete messages when valid & unlimited
 		valid  bool
 		bounds []int
+		limit  int64 // 0: drawn at random below; > 0: this read limit
 	}
 	var scens []scen
+	// the read limit at its boundaries, in every length form a frame of that size can take: limit, limit + 1 and
+	// the largest frame of the one-byte form, after an in-limit frame
+	for _, lim := range []int64{1, 100, 124, 125, 126, 300} {
+		for _, n := range []int{int(lim), int(lim) + 1, 125, 126} {
+			for _, f := range []lenForm{formMin, form16, form64} {
+				small := payload(r.rng, 1)
+				data := payload(r.rng, n)
+				st := append(specEncode("t", small, formMin), specEncode("b", data, f)...)
+				scens = append(scens, scen{"boundary", st, []rmsg{{"t", small}, {"b", data}}, true, []int{len(st) - len(specEncode("b", data, f)), len(st)}, lim})
+			}
+		}
+	}
 	nValid := 12
 	if r.thorough() {
 		nValid = 80
@@ -705,7 +820,7 @@ func famWTRead(t *testing.T, r *Rec) {
 	for i := 0; i < nValid; i++ {
 		maxLen := []int{300, 70000, 5000}[i%3]
 		s, m, b := validStream(r, 1+r.rng.IntN(4), maxLen)
-		scens = append(scens, scen{"valid", s, m, true, b})
+		scens = append(scens, scen{"valid", s, m, true, b, 0})
 	}
 	// truncations at every offset of small valid streams
 	nTr := 3
@@ -718,7 +833,7 @@ func famWTRead(t *testing.T, r *Rec) {
 			if len(s) > 400 && cut%7 != 0 && cut > 20 {
 				continue
 			}
-			scens = append(scens, scen{"trunc", append([]byte(nil), s[:cut]...), m, false, b})
+			scens = append(scens, scen{"trunc", append([]byte(nil), s[:cut]...), m, false, b, 0})
 		}
 	}
 	// huge / hostile declared lengths
@@ -727,7 +842,7 @@ func famWTRead(t *testing.T, r *Rec) {
 			h := make([]byte, 9)
 			h[0] = kb | 127
 			binary.BigEndian.PutUint64(h[1:], v)
-			scens = append(scens, scen{"huge", append(h, payload(r.rng, 40)...), nil, false, nil})
+			scens = append(scens, scen{"huge", append(h, payload(r.rng, 40)...), nil, false, nil, 0})
 		}
 	}
 	// random and mutated streams
@@ -737,20 +852,23 @@ func famWTRead(t *testing.T, r *Rec) {
 	}
 	for i := 0; i < nRnd; i++ {
 		if i%2 == 0 {
-			scens = append(scens, scen{"random", payload(r.rng, r.rng.IntN(600)), nil, false, nil})
+			scens = append(scens, scen{"random", payload(r.rng, r.rng.IntN(600)), nil, false, nil, 0})
 		} else {
 			s, _, _ := validStream(r, 1+r.rng.IntN(3), 300)
 			for k := 0; k < 1+r.rng.IntN(3) && len(s) > 0; k++ {
 				s[r.rng.IntN(len(s))] ^= byte(1 << r.rng.IntN(8))
 			}
-			scens = append(scens, scen{"mutated", s, nil, false, nil})
+			scens = append(scens, scen{"mutated", s, nil, false, nil, 0})
 		}
 	}
 
-	limits := []int64{0, 1, 125, 126, 300, 4096}
+	limits := []int64{0, 1, 100, 125, 126, 300, 4096}
 	for _, sc := range scens {
 		tailFail := r.rng.IntN(4) == 0
 		limit := limits[r.rng.IntN(len(limits))]
+		if sc.limit > 0 {
+			limit = sc.limit
+		}
 		if sc.name == "valid" && r.rng.IntN(2) == 0 {
 			limit = 0
 			tailFail = false
@@ -844,8 +962,25 @@ func famWTRead(t *testing.T, r *Rec) {
 			return out
 		}
 		do(fmt.Sprintf("wt rnew 0 t%d 0 %s - %d", at, hx(stream), rbuf))
-		r.Cover(fmt.Sprintf("transient/rbuf=%d", rbuf))
+		r.Cover(fmt.Sprintf("transient/rbuf=%d/abandon=%s", rbuf, b01(k%2 == 1)))
 		do("wt next")
+		if k%2 == 1 {
+			// the application abandons the message after two bytes: the error then hits while the rest of the
+			// message is skipped on the way to the next one (NextReader, or the Close it performs on the old reader)
+			do("wt read 2")
+			e1 := do("wt next")
+			if !strings.HasPrefix(e1, "err ") {
+				r.Violate("C15", "C15/transient-not-reported/while-skipping", "a stream error while the unread rest of a message was skipped was not reported: NextReader said "+e1, replay)
+			}
+			for i := 0; i < 2; i++ {
+				if o := do("wt next"); o != e1 {
+					r.Violate("C15", "C15/sticky/next-after-transient-error-while-skipping", "NextReader reported "+o+" after "+e1, replay)
+				}
+			}
+			do("wt closes")
+			it.r.done()
+			continue
+		}
 		first := do(fmt.Sprintf("wt read %d", n1+10))
 		ff := strings.Fields(first)
 		if len(ff) == 3 && ff[2] != "-" {
@@ -990,6 +1125,7 @@ func monitorRead(r *Rec, name string, valid bool, stream []byte, want []rmsg, bo
 		}
 		if limit > 0 && int64(len(g.data)) > limit {
 			r.Violate("C15", "C15/limit/"+name, fmt.Sprintf("message of %d bytes delivered with limit %d", len(g.data), limit), replay)
+			r.Violate("C10", "C10/webtransport-frame/delivered/"+name, fmt.Sprintf("a WebTransport message of %d bytes was delivered with a read limit of %d", len(g.data), limit), replay)
 		}
 	}
 	// the first frame not delivered explains the error
@@ -1006,6 +1142,7 @@ func monitorRead(r *Rec, name string, valid bool, stream []byte, want []rmsg, bo
 			}
 			if len(rc.sess.codes) != 1 || rc.sess.codes[0] != webtransport.CloseMessageTooBig {
 				r.Violate("C15", "C15/limit-close/"+name, fmt.Sprintf("session close codes %v", rc.sess.codes), replay)
+				r.Violate("C10", "C10/webtransport-frame/not-terminated/"+name, fmt.Sprintf("an oversized WebTransport frame did not terminate its connection with 'message too big': close codes %v", rc.sess.codes), replay)
 			}
 		case !f.complete:
 			wantErr := "uEOF"
